@@ -5,6 +5,9 @@ CRATES = {
     "kani-udp-proto": {"kani_args": ["-Z", "stubbing"]},
     "kani-common": {"kani_args": ["-Z", "stubbing"], "rustflags": GUARD},
     "kani-ws-proto": {"kani_args": ["-Z", "stubbing"]},
+    "kani-http-proto": {"kani_args": ["-Z", "stubbing"], "rustflags": GUARD},
+    "kani-http": {"kani_args": ["-Z", "stubbing", "-Z", "unstable-options"], "rustflags": GUARD, "cbmc_args": ["--unwindset", "memcmp.0:22"]},
+    "kani-ws": {"kani_args": ["-Z", "stubbing", "-Z", "unstable-options"], "rustflags": GUARD + " --cfg verif_cap4 --cfg verif_cap2", "cbmc_args": ["--unwindset", "memcmp.0:22"]},
     "kani-udp": {"kani_args": ["-Z", "stubbing", "-Z", "unstable-options"], "rustflags": GUARD,
                  "cbmc_args": ["--unwindset", "memcmp.0:22"]},
 }
@@ -20,6 +23,9 @@ UP = "kani-udp-proto"
 KC = "kani-common"
 KU = "kani-udp"
 KWP = "kani-ws-proto"
+KHP = "kani-http-proto"
+KH = "kani-http"
+KW = "kani-ws"
 
 PROPS = {}
 
@@ -159,6 +165,116 @@ PROPS["C05"] = {
         H(KU, "c05::c05_forged", "arbitrary id accepted <=> its tag bytes == MAC(its time bytes, source ip) and its time in window", "all i64 ids", ["connection_id_valid"], cost=30),
     ],
 }
+
+PROPS["C14"] = {
+    "level": "model_checking",
+    "functions": ["aquatic_http_protocol::utils::{urlencode_20_bytes, urldecode_20_bytes}", "response::{AnnounceResponse,ScrapeResponse,FailureResponse}::write_bytes", "itoa::Buffer::format", "hex::{encode_to_slice,decode_to_slice}"],
+    "bounds": "identifiers: all 2^160 values (encode) / strings of exactly 0,19,20,21 units, each unit a raw ASCII char, a 2-byte char U+0080..U+07FF, or %XY with arbitrary ASCII X,Y (decode); "
+              "replies: (n4,n6) in {(0,0),(2,0),(0,2),(1,1)} compact peers, 0..2 scrape files, counters < 100000, one failure text",
+    "outside": "the query-string splitter (memchr over symbolic bytes does not finish, DESIGN section 2) and request write->parse round trip; counters >= 100000 (itoa digit extraction at full width stalls the bit-blaster); reply parse-back through serde_bencode; "
+               "'%'+non-ASCII look-alike hex digits (the code is lenient there; the property does not demand rejection)",
+    "models": ["std::backtrace::Backtrace::capture -> disabled()", "alloc::fmt::format -> empty String"],
+    "assumptions": ["reference bencode encoder in harness/kani-http-proto/src/bencode_ref.rs"],
+    "harnesses": [
+        H(KHP, "c14::c14_id_roundtrip", "urlencode = '%xy'*20 lower-case hex; urldecode inverts it", "all identifiers", ["urlencode_20_bytes", "urldecode_20_bytes"], cost=60),
+    ] + [
+        H(KHP, "c14::c14_urldecode_n%d" % n, "Ok(v) <=> exactly 20 well-formed units and v[i] = unit value (reference decoder)", "%d arbitrary units" % n, ["urldecode_20_bytes"], cost=120)
+        for n in (0, 19, 20, 21)
+    ] + [
+        H(KHP, "c14::c14_announce_reply_%d_%d" % (a, b), "announce reply bytes == canonical bencode (sorted keys, 6/18-byte compact peers), returned length == bytes written", "%d v4 + %d v6 peers, counters < 1e5" % (a, b), ["AnnounceResponse::write_bytes"], cost=150)
+        for (a, b) in ((0, 0), (2, 0), (0, 2), (1, 1))
+    ] + [
+        H(KHP, "c14::c14_scrape_reply_%d" % n, "scrape reply bytes == canonical bencode, hashes ascending", "%d files" % n, ["ScrapeResponse::write_bytes"], cost=150)
+        for n in (0, 1, 2)
+    ] + [
+        H(KHP, "c14::c14_failure_reply", "failure reply bytes == canonical bencode", "one text", ["FailureResponse::write_bytes"]),
+    ],
+}
+
+_CLEAN = ("one real TorrentMapShards::clean_and_get_statistics over a torrent of exactly N symbolic peers: an entry survives <=> deadline > now (C10), survivors untouched, "
+          "returned totals == stored afterwards and one PeerRemoved per expired peer id (C20), forbidden torrent removed whatever its peers (C11), empty torrent removed, heap map shrinks when <= 2 remain (C01)")
+_CLEAN_H = [
+    H(KU, "clean::clean_v4_small_n0", _CLEAN, "N=0 inline", ["TorrentMapShards::clean_and_get_statistics"], cost=30),
+    H(KU, "clean::clean_v4_small_n1", _CLEAN, "N=1 inline", ["SmallPeerMap::clean_and_get_num_peers"], cost=60),
+    H(KU, "clean::clean_v4_small_n2", _CLEAN, "N=2 inline", ["SmallPeerMap::clean_and_get_num_peers"], cost=100),
+    H(KU, "clean::clean_v4_large_n3", _CLEAN, "N=3 heap", ["LargePeerMap::clean_and_get_num_peers", "LargePeerMap::try_shrink"], cost=200),
+    H(KU, "clean::clean_v4_large_n4", _CLEAN, "N=4 heap", ["LargePeerMap::clean_and_get_num_peers", "LargePeerMap::try_shrink"], cost=300),
+    H(KU, "clean::clean_v4_large_n3_nostats", _CLEAN, "N=3 heap, peer_clients off", ["LargePeerMap::clean_and_get_num_peers"], tier="thorough", cost=200),
+    H(KU, "clean::clean_v6_small_n2", _CLEAN, "N=2 inline, IPv6", ["SmallPeerMap::clean_and_get_num_peers"], tier="thorough", cost=100),
+    H(KU, "clean::clean_v6_large_n3", _CLEAN, "N=3 heap, IPv6", ["LargePeerMap::clean_and_get_num_peers"], tier="thorough", cost=200),
+]
+_CLEANMAPS = ("one real TorrentMaps::clean_and_update_statistics over one IPv4 and one IPv6 torrent: per-family stored state == reference, published per-family totals == stored (exactly when statistics are active), "
+              "forbidden torrents removed in both families for every list content incl. the empty list, no lock left held")
+_CLEANMAPS_H = [
+    H(KU, "clean::cleanmaps_1_2", _CLEANMAPS, "1 v4 peer (inline), 2 v6 peers (inline)", ["TorrentMaps::clean_and_update_statistics"], cost=150),
+    H(KU, "clean::cleanmaps_3_2", _CLEANMAPS, "3 v4 peers (heap), 2 v6 peers (inline)", ["TorrentMaps::clean_and_update_statistics"], cost=300),
+    H(KU, "clean::cleanmaps_2_3", _CLEANMAPS, "2 v4 peers (inline), 3 v6 peers (heap)", ["TorrentMaps::clean_and_update_statistics"], tier="thorough", cost=300),
+]
+PROPS["C10"]["harnesses"] += [dict(h) for h in _CLEAN_H]
+PROPS["C10"]["functions"] += ["aquatic_udp::swarm::{TorrentMapShards::clean_and_get_statistics, SmallPeerMap::clean_and_get_num_peers, LargePeerMap::{clean_and_get_num_peers,try_shrink}}"]
+PROPS["C10"]["bounds"] += "; storage level (udp): torrents of 0..4 peers quick, IPv6 thorough, one cleaning pass from any state, all deadlines and clock values"
+PROPS["C11"]["harnesses"] += [dict(h) for h in _CLEANMAPS_H] + [dict(h) for h in _CLEAN_H[:4]]
+PROPS["C01"]["harnesses"] += [dict(h) for h in _CLEAN_H[:5]]
+
+_TALLY = ("one PeerMap::announce with client statistics on: for every peer id p, #PeerAdded(p) - #PeerRemoved(p) emitted == change in the number of stored peers carrying p")
+PROPS["C20"] = {
+    "level": "model_checking",
+    "functions": ["aquatic_udp::swarm::{TorrentMaps::clean_and_update_statistics, TorrentMapShards::clean_and_get_statistics, PeerMap::announce (PeerAdded/PeerRemoved), *::clean_and_get_num_peers}"],
+    "bounds": "announce step from any state of 1..3 peers; cleaning pass over torrents of 0..4 peers (one per family); all clock values, deadlines, peer ids",
+    "outside": "the statistics worker's own += / -= loop, HTML/prometheus output; scrape export file contents and atomic replacement (File/BufWriter/rename are OS calls a SAT solver has no model of; the export writer is None in every harness)",
+    "models": ["crossbeam Sender::try_send -> log", "container/lock models as in C01"],
+    "assumptions": ["unbounded channel never fails"],
+    "harnesses": [
+        H(KU, "c01::c20_tally_v4_small_n1", _TALLY, "N=1 inline", ["PeerMap::announce"], cost=100),
+        H(KU, "c01::c20_tally_v4_small_n2", _TALLY, "N=2 inline", ["PeerMap::announce"], cost=200),
+        H(KU, "c01::c20_tally_v4_large_n3", _TALLY, "N=3 heap", ["PeerMap::announce"], cost=300),
+    ] + [dict(h) for h in _CLEAN_H[:5]] + [dict(h) for h in _CLEANMAPS_H],
+}
+
+_HR = "WorkerSharedData::handle_request: None unless connect or valid connection id; reply kind == request kind; announce family == source family; transaction id echoed; forbidden hash -> error and no state; scrape lists exactly the requested torrents; unauthenticated requests create no state"
+PROPS["C06"] = {
+    "level": "model_checking",
+    "functions": ["aquatic_udp::workers::socket::mio::WorkerSharedData::handle_request", "ConnectionValidator::{create_connection_id,connection_id_valid}", "TorrentMaps::{announce,scrape}"],
+    "bounds": "all source addresses, all ids / clock / max age values, all announce fields, scrapes of 1 and 3 hashes, access list of 0..1 entries x 3 modes; torrent maps initially empty",
+    "outside": "datagram I/O (recv_from / send_to, destination address, source port 0, resend buffer) in mio/socket.rs; io_uring backend; parse errors that know their ids (parser side is C13)",
+    "models": ["keyed hash -> uninterpreted function (hook)", "constant_time_eq -> plain slice equality (inline asm not supported)", "crossbeam try_send -> log", "lock/map models"],
+    "assumptions": [],
+    "harnesses": [
+        H(KU, "c06::c06_connect", _HR, "connect", ["handle_request"], cost=60),
+        H(KU, "c06::c06_announce", _HR, "announce", ["handle_request"], cost=200),
+        H(KU, "c06::c06_scrape_k1", _HR, "scrape 1 hash", ["handle_request"], cost=60),
+        H(KU, "c06::c06_scrape_k3", _HR, "scrape 3 hashes", ["handle_request"], cost=100),
+    ],
+}
+PROPS["C11"]["harnesses"] += [dict(h) for h in PROPS["C06"]["harnesses"][1:2]]
+
+_UPS = ("one TorrentData::upsert_peer_and_get_response_peers from an arbitrary state of exactly N distinct-key peers: complete/incomplete == reference over the others; post-state == reference "
+        "(announcer stored once, left==0<=>seeder, fresh deadline, or removed on stop; others untouched; cached seeder count consistent); scrape counts == stored; "
+        "reply list <= min(numwant,max_peers) (absent/0 => max), all others when they fit else >= limit-1, distinct, members, never the requester")
+_HCLEAN = "one TorrentMap::clean over a torrent of N peers: entry kept <=> deadline > now, survivors untouched, forbidden torrent dropped, empty torrent dropped, permitted non-empty torrent kept"
+PROPS["C07"] = {
+    "level": "model_checking",
+    "functions": ["aquatic_http::workers::swarm::storage::{TorrentData::{upsert_peer_and_get_response_peers,scrape_statistics}, SmallPeerMap::*, LargePeerMap::*, TorrentMap::clean}"],
+    "bounds": "pre-states of N = 0..2 peers quick (inline), 3, 4 (crossing inline->heap at 4) and heap N=5 thorough; IPv6 instantiation thorough; all request fields, max_peers 0..8, every RNG state; cleaning over 0..3 peers",
+    "outside": "TorrentMap::handle_scrape_request (std BTreeMap under CBMC does not finish; attempted); > 5 peers; TorrentMaps dispatch by address family; glommio worker glue (C16)",
+    "models": ["aquatic_common::IndexMap -> array-backed model", "arc-swap / HashSet models for the access list"],
+    "assumptions": ["the storage file is compiled in place by harness/kani-http (aquatic_http itself cannot be built by Kani)", "indexmap behaves as documented"],
+    "harnesses": [
+        H(KH, "c07::c07_upsert_v4_small_n0", _UPS, "N=0 inline", [], cost=20),
+        H(KH, "c07::c07_upsert_v4_small_n1", _UPS, "N=1 inline", [], cost=50),
+        H(KH, "c07::c07_upsert_v4_small_n2", _UPS, "N=2 inline", [], cost=80),
+        H(KH, "c07::c07_upsert_v4_small_n3", _UPS, "N=3 inline", [], tier="thorough", cost=200),
+        H(KH, "c07::c07_upsert_v4_small_n4", _UPS, "N=4 inline (crosses inline->heap)", [], tier="thorough", cost=400),
+        H(KH, "c07::c07_upsert_v4_large_n5", _UPS, "N=5 heap (crosses heap->inline on stop)", [], tier="thorough", cost=900),
+        H(KH, "c07::c07_upsert_v6_small_n1", _UPS, "N=1 inline, IPv6", [], tier="thorough", cost=80),
+        H(KH, "c07::c07_clean_small_n0", _HCLEAN, "N=0", [], cost=20),
+        H(KH, "c07::c07_clean_small_n1", _HCLEAN, "N=1 inline", [], cost=40),
+        H(KH, "c07::c07_clean_small_n2", _HCLEAN, "N=2 inline", [], cost=160),
+        H(KH, "c07::c07_clean_large_n3", _HCLEAN, "N=3 heap", [], tier="thorough", cost=300),
+    ],
+}
+PROPS["C10"]["harnesses"] += [dict(h) for h in PROPS["C07"]["harnesses"][7:]]
+PROPS["C11"]["harnesses"] += [dict(h) for h in PROPS["C07"]["harnesses"][8:10]]
 
 
 def all_harnesses(prop):
